@@ -52,7 +52,8 @@ def lat_unlinked(with_fault=True, fault_first=False):
         "megacomplex": {"m1": {"type": "verif-lat", "labels": ["a", "b", "c"], "cols": cols, "dcols": dcols, "par": ["p.1", "p.2", "p.3"]},
                         "m2": {"type": "verif-lat", "labels": ["a", "b"], "cols": [[2, 1, 0, 1], [0, 1, 2, 1]], "dcols": [[1, 0, 1, 0], [0, 1, 0, 2]],
                                "par": ["p.2", "p.1"]},
-                        "m3": {"type": "verif-lat", "labels": ["a", "b"], "cols": [[1, 2, 1], [2, 0, 1]], "dcols": [[0, 1, 1], [1, 1, 0]],
+                        # d3 (the LAST dataset) has the source clp of the penalty but not its target: the penalty applies to d1 and d2 only
+                        "m3": {"type": "verif-lat", "labels": ["a", "c"], "cols": [[1, 2, 1], [2, 0, 1]], "dcols": [[0, 1, 1], [1, 1, 0]],
                                "par": ["e.a", "e.b"]}},
         # d3 depends on the free parameters ONLY through expression parameters (vary=False, yet they change with p.3)
         "dataset": {"d1": {"megacomplex": ["m1"], "scale": "s.1"}, "d2": {"megacomplex": ["m2"]}, "d3": {"megacomplex": ["m3"]}},
